@@ -36,7 +36,12 @@ Styles == <<
   [Canon EXCEPT !.frac = <<"extra", "4", "9", "9">>],
   [Canon EXCEPT !.frac = <<"extra", "5">>],
   [Canon EXCEPT !.frac = <<"extra", "5", "0", "1">>, !.gap = 1],
-  [Canon EXCEPT !.frac = <<"extra", "9", "9", "9">>, !.num = "bare"] >>
+  [Canon EXCEPT !.frac = <<"extra", "9", "9", "9">>, !.num = "bare"],
+  \* every value of the seventh fraction digit (rounded half-up: 0-4 down, 5-9 up)
+  [Canon EXCEPT !.frac = <<"extra", "0">>], [Canon EXCEPT !.frac = <<"extra", "1">>], [Canon EXCEPT !.frac = <<"extra", "2">>],
+  [Canon EXCEPT !.frac = <<"extra", "3">>], [Canon EXCEPT !.frac = <<"extra", "4">>], [Canon EXCEPT !.frac = <<"extra", "6">>],
+  [Canon EXCEPT !.frac = <<"extra", "7">>], [Canon EXCEPT !.frac = <<"extra", "8">>], [Canon EXCEPT !.frac = <<"extra", "9">>],
+  [Canon EXCEPT !.frac = <<"extra", "4", "9">>], [Canon EXCEPT !.frac = <<"extra", "5", "0">>, !.ncase = 3] >>
 NStyles == Len(Styles)
 \* cut styles: variant NStyles + k means "text stops before token k" (k = 1..40)
 MaxCut == 40
